@@ -488,6 +488,20 @@ class SymVal(object):
             return mk(('key', None, '(%s %s %s)' % (render(single(svs[0])), nm[8:], render(single(svs[1])))))
         return mk(('key', None, self._key(x, st)))
 
+    def _e_CXXMemberCallExpr(self, x, st):
+        c = callee(x)
+        args = call_args(x)
+        if c and c[0] == 'method' and c[2] is not None and not args and c[1] in ('front', 'back') and \
+                re.search(r'\b(vector|array|deque|basic_string)<', (dtype(c[2]) or '') + (qtype(c[2]) or '')):
+            # the first / last element of a container, named as the element it is
+            base = self.keys.key(c[2])
+            return mk(('elem', base, {} if c[1] == 'front' else {'%s.size()' % base: 1, '': -1}))
+        for a in args:
+            self.ev(a, st)
+        if c and c[0] == 'method' and c[2] is not None:
+            self.ev(c[2], st)
+        return mk(('key', None, self._key(x, st)))
+
     def _e_MemberExpr(self, x, st):
         ks = kids(x)
         if not ks:
